@@ -489,6 +489,109 @@ def rule_quote(ctx):
                                   "breaks the bookkeeping statement (raw ParserException after the table was created)")
 
 
+VIEW_TYPE_ORACLE = {"BIGINT": "NUMBER", "VARCHAR": "TEXT", "DOUBLE": "FLOAT", "BLOB": "BINARY", "TIMESTAMP": "TIMESTAMP_NTZ",
+                    "TIMESTAMP WITH TIME ZONE": "TIMESTAMP_TZ", "JSON": "VARIANT"}
+DESCRIBE_TYPE_ORACLE = {"NUMBER": r"NUMBER\(.*numeric_precision.*numeric_scale", "TEXT": r"VARCHAR\(.*coalesce\(character_maximum_length,\s*16777216\)",
+                        "TIMESTAMP_NTZ": r"TIMESTAMP_NTZ\(9\)", "TIMESTAMP_TZ": r"TIMESTAMP_TZ\(9\)", "TIME": r"TIME\(9\)", "BINARY": r"BINARY\(8388608\)"}
+
+
+def rule_type_names(ctx):
+    """C09.h: the columns view maps each DuckDB type to Snowflake's type name, and DESCRIBE renders each with its
+    Snowflake precision/length suffix (WHEN/THEN pairs of the templates against the oracle)."""
+    prog = ctx.prog
+    m = prog.mod("info_schema")
+    cv = next(((k, v.args[0].value) for k, v in m.consts.items() if isinstance(v, ast.Call) and v.args and isinstance(v.args[0], ast.Constant)
+               and "_fs_columns_snowflake" in str(v.args[0].value)), None)
+    if cv is None:
+        raise AnalysisError("anchor vanished: columns view template")
+    k, txt = cv
+    first_case = txt[:txt.lower().find("as data_type")]
+    pairs = dict(re.findall(r"when\s+columns\.data_type\s*=\s*'([^']+)'\s+then\s+'([^']+)'", first_case, re.I))
+    dec = re.search(r"when\s+starts_with\(columns\.data_type,\s*'DECIMAL'\)\s+or\s+columns\.data_type\s*=\s*'BIGINT'\s+then\s+'(\w+)'", first_case, re.I)
+    if dec:
+        pairs["BIGINT"] = dec.group(1)
+        pairs["DECIMAL"] = dec.group(1)
+    ctx.floor("data_type mapping pairs in the columns view", len(pairs), 5)
+    for duck, want in {**VIEW_TYPE_ORACLE, "DECIMAL": "NUMBER"}.items():
+        got = pairs.get(duck)
+        ok = got == want
+        ctx.ob("C09.h", f"columns view: DuckDB {duck} is reported as {want}", ok, m.loc(m.const_stmts[k]), str(got))
+        if not ok:
+            ctx.violation("C09.h", "info_schema", k, f"data_type {duck} -> {got}", m.loc(m.const_stmts[k]),
+                          f"information_schema.columns reports a DuckDB {duck} column as `{got}`; Snowflake's type name is {want} "
+                          f"(DESCRIBE TABLE and SHOW build on this name)")
+    # BIGINT precision 38 / radix 10
+    okp = bool(re.search(r"when\s+columns\.data_type\s*=\s*'BIGINT'\s+then\s+38", txt, re.I)) and bool(
+        re.search(r"when\s+columns\.data_type\s*=\s*'BIGINT'\s+then\s+10", txt, re.I))
+    ctx.ob("C09.h", "columns view: integers report precision 38, radix 10", okp, m.loc(m.const_stmts[k]))
+    if not okp:
+        ctx.violation("C09.h", "info_schema", k, "integer precision/radix", m.loc(m.const_stmts[k]),
+                      "integer columns must report numeric_precision 38 and radix 10 like Snowflake's NUMBER(38,0)")
+    t = prog.mod("transforms")
+    dt = t.consts.get("SQL_DESCRIBE_TABLE")
+    if isinstance(dt, ast.Call) and dt.args and isinstance(dt.args[0], ast.Constant):
+        text = dt.args[0].value
+        for ty, rx in DESCRIBE_TYPE_ORACLE.items():
+            mt = re.search(rf"WHEN\s+data_type\s*=\s*'{ty}'\s+THEN\s+(.*?)(?=WHEN|ELSE)", text, re.I | re.S)
+            ok = bool(mt) and bool(re.search(rx, mt.group(1).replace("' || ", "").replace(" || '", "").replace("'", ""), re.I | re.S))
+            ctx.ob("C09.h", f"DESCRIBE TABLE renders {ty} with its Snowflake suffix", ok, t.loc(t.const_stmts["SQL_DESCRIBE_TABLE"]))
+            if not ok:
+                ctx.violation("C09.h", "transforms", "SQL_DESCRIBE_TABLE", f"type text for {ty}", t.loc(t.const_stmts["SQL_DESCRIBE_TABLE"]),
+                              f"DESCRIBE TABLE does not render {ty} columns the way Snowflake does (expected pattern {rx})")
+
+
+def rule_bookkeeping_names(ctx):
+    """C09.i: the side-table rows carry (catalog, schema, table) of the object itself — the qualifier if the statement
+    has one, else the session's current database / schema."""
+    from ..execmodel import coldef, lit, node, table
+    from ..values import Lst
+
+    prog = ctx.prog
+    cases = {
+        "unqualified": (lambda: table("T"), ("CUR_DB", "CUR_SCHEMA", "T")),
+        "schema-qualified": (lambda: table("T", "S"), ("CUR_DB", "S", "T")),
+        "fully qualified": (lambda: table("T", "S", "D"), ("D", "S", "T")),
+    }
+    for label, (mk, want) in cases.items():
+        hooks = []
+
+        def fac():
+            h = ExecHooks(None)
+            hooks.append(h)
+            return h
+
+        def run(I, mk=mk):
+            duck, conn, cur = make_session()
+            stmt = node("Create", "stmt", kind=Const("TABLE"), this=node("Schema", this=mk(), expressions=Lst([coldef("A", "VARCHAR", 10)])),
+                        properties=node("Properties", expressions=Lst([node("SchemaCommentProperty", this=lit(Sym("comment", typ="str", truthy=True)))])))
+            tr = I.call(I.getattr(cur, "_transform"), [stmt], {}, None)
+            return I.call(I.getattr(cur, "_execute"), [tr, Const(None)], {}, None)
+
+        for p, h in zip(explore(prog, fac, run, max_paths=16), hooks):
+            if p.outcome != "return":
+                continue
+            for sqlv, _, site in h.calls:
+                txt = text_of(sqlv)
+                if "_fs_tables_ext" not in txt and "_fs_columns_ext" not in txt:
+                    continue
+                mt = re.search(r"values\s*\(\s*'\{([^}]*)\}',\s*'\{([^}]*)\}',\s*'\{([^}]*)\}'", txt, re.I)
+                tgt = re.search(r"INSERT INTO \{([^}]*)\}\.information_schema", txt, re.I)
+                got = mt.groups() if mt else None
+                ok = got == want and tgt is not None and tgt.group(1) == want[0]
+                which = "_fs_tables_ext" if "_fs_tables_ext" in txt else "_fs_columns_ext"
+                ctx.ob("C09.i", f"{label} CREATE TABLE: {which} row is keyed {want} in catalog {want[0]}", ok, site_loc_(site), str(got))
+                if not ok:
+                    ctx.violation("C09.i", "cursor", "FakeSnowflakeCursor._execute", f"{label}: {which} keyed {got}", site_loc_(site),
+                                  f"for a {label} CREATE TABLE the {which} row is written with key {got} (target catalog "
+                                  f"{tgt.group(1) if tgt else '?'}); the object is {want}: comments / VARCHAR lengths are filed under the wrong "
+                                  f"database or schema")
+            break
+
+
+def site_loc_(site):
+    return f"fakesnow/cursor.py:{getattr(site, 'lineno', 0)}"
+
+
 def rule_no_phantom_comment(ctx):
     """C09.f: a CREATE without COMMENT records no comment (not the text of a Python None)."""
     prog = ctx.prog
@@ -511,6 +614,8 @@ from .c06 import rule_precision_pattern  # noqa: E402  (description of SELECT * 
 RULES = [
     ("C09.g", rule_precision_pattern, ("quick", "thorough")),
     ("C09.f", rule_no_phantom_comment, ("quick", "thorough")),
+    ("C09.h", rule_type_names, ("quick", "thorough")),
+    ("C09.i", rule_bookkeeping_names, ("quick", "thorough")),
     ("C09.a", rule_hidden, ("quick", "thorough")),
     ("C09.b", rule_scope, ("quick", "thorough")),
     ("C09.c", rule_keys, ("quick", "thorough")),
